@@ -25,6 +25,7 @@ import (
 type Env struct {
 	Vars map[types.Object]constant.Value // tracked locals; nil value = unknown
 	Syms map[string]constant.Value       // inputs keyed by their rendered expression
+	Over map[string]constant.Value       // inputs overwritten by an assignment on this path (nil = unknown)
 	Ev   []string
 	Cnt  map[string]int // event counters ("#name" events)
 }
@@ -42,12 +43,22 @@ func (e *Env) fingerprint() string {
 	for k, v := range e.Cnt {
 		ks = append(ks, fmt.Sprintf("#%s=%d", k, v))
 	}
+	for k, v := range e.Over {
+		s := "?"
+		if v != nil {
+			s = v.ExactString()
+		}
+		ks = append(ks, "~"+k+"="+s)
+	}
 	sort.Strings(ks)
 	return strings.Join(ks, ",") + "|" + strings.Join(e.Ev, ";")
 }
 
 func (e *Env) clone() *Env {
-	n := &Env{Vars: map[types.Object]constant.Value{}, Syms: e.Syms, Ev: append([]string{}, e.Ev...), Cnt: map[string]int{}}
+	n := &Env{Vars: map[types.Object]constant.Value{}, Syms: e.Syms, Over: map[string]constant.Value{}, Ev: append([]string{}, e.Ev...), Cnt: map[string]int{}}
+	for k, v := range e.Over {
+		n.Over[k] = v
+	}
 	for k, v := range e.Vars {
 		n.Vars[k] = v
 	}
@@ -111,6 +122,9 @@ func b2c(b bool) constant.Value { return constant.MakeBool(b) }
 func (j *Job) Eval(env *Env, e ast.Expr) constant.Value {
 	info := j.F.Info()
 	e = ast.Unparen(e)
+	if v, ok := env.Over[core.ExprStr(e)]; ok {
+		return v
+	}
 	if v, ok := env.Syms[core.ExprStr(e)]; ok {
 		return v
 	}
@@ -358,7 +372,7 @@ func (j *Job) Run() []Outcome {
 		env   *Env
 		steps int
 	}
-	work := []frame{{j.Start.B, j.Start.I, &Env{Vars: map[types.Object]constant.Value{}, Syms: j.Inputs, Cnt: map[string]int{}}, 0}}
+	work := []frame{{j.Start.B, j.Start.I, &Env{Vars: map[types.Object]constant.Value{}, Syms: j.Inputs, Over: map[string]constant.Value{}, Cnt: map[string]int{}}, 0}}
 	visited := map[string]bool{}
 	for k, v := range j.Init {
 		work[0].env.Vars[k] = v
@@ -404,6 +418,15 @@ func (j *Job) Run() []Outcome {
 					for k, l := range st.Lhs {
 						id, ok := l.(*ast.Ident)
 						if !ok {
+							// an input expression (field path) is overwritten on this path
+							key := core.ExprStr(l)
+							if _, isSym := env.Syms[key]; isSym {
+								if st.Tok == token.ASSIGN {
+									env.Over[key] = vals[k]
+								} else {
+									env.Over[key] = nil
+								}
+							}
 							continue
 						}
 						obj := info.ObjectOf(id)
